@@ -68,4 +68,42 @@ def shardResult {α : Type} (n : Nat) (pick : Nat → Nat → α → Nat) (items
   if (List.range n).any (fun s => (sendLoop (hints s) 0 (items s)).2) then none
   else some (reshard n pick (fun s => (sendLoop (hints s) 0 (items s)).1) d)
 
+/-- What the caller of the operation on shard `d` observes. -/
+inductive Outcome (α : Type) where
+  | ok (l : List α)
+  | err
+  /-- the call never returns: some peer failed and dropped its channels to `d` without closing them,
+  so `d` keeps waiting for that peer's end-of-stream -/
+  | hang
+  deriving DecidableEq, Repr
+
+/-- the send loop of shard `s` fails (an `Err` item, or more items than the size hint) -/
+def ownFails {α : Type} (items : Nat → List (Option α)) (hints : Nat → Nat) (s : Nat) : Bool :=
+  (sendLoop (hints s) 0 (items s)).2
+
+/-- Per-shard outcome. A shard whose own input stream fails returns `Err` at once
+(`send_recv.try_next().await?`) — its `send_channels` are dropped, not closed. A shard whose own
+stream is fine but one of whose peers failed has received everything that peer sent before the failure
+and then waits for an end-of-stream that never comes. Nobody returns a partial `Ok`. -/
+def shardOutcome {α : Type} (n : Nat) (pick : Nat → Nat → α → Nat) (items : Nat → List (Option α)) (hints : Nat → Nat) (d : Nat) : Outcome α :=
+  if ownFails items hints d then .err
+  else if (List.range n).any (ownFails items hints) then .hang
+  else .ok (reshard n pick (fun s => (sendLoop (hints s) 0 (items s)).1) d)
+
+/-! ### The code before the repair "resharding keeps its channels open until the input has ended"
+
+The channels were created with `total_records = size hint` (`ONE` for a hint of 0), and a channel closes
+on its own when it has carried `total_records` records. So if the first `hint` items of a failing stream
+all went to the same peer, that peer saw a regular end-of-stream from the failing shard. Kept as
+documentation of the defect; the code now uses `size hint + 1`, so only the explicit `close` at the end of
+an error-free input ends a channel. -/
+
+def autoClosedUnfixed {α : Type} (pick : Nat → Nat → α → Nat) (items : Nat → List (Option α)) (hints : Nat → Nat) (s d : Nat) : Bool :=
+  (outgoing pick s d 0 (sendLoop (hints s) 0 (items s)).1).length == max (hints s) 1
+
+def shardOutcomeUnfixed {α : Type} (n : Nat) (pick : Nat → Nat → α → Nat) (items : Nat → List (Option α)) (hints : Nat → Nat) (d : Nat) : Outcome α :=
+  if ownFails items hints d then .err
+  else if (List.range n).any (fun s => s != d && ownFails items hints s && !autoClosedUnfixed pick items hints s d) then .hang
+  else .ok (reshard n pick (fun s => (sendLoop (hints s) 0 (items s)).1) d)
+
 end IpaVerif.Reshard
